@@ -299,6 +299,9 @@ def do_replay(path):
 
 
 def main(argv=None):
+    import warnings
+
+    warnings.simplefilter("ignore")  # the library warns e.g. when smoothing is impossible
     ap = argparse.ArgumentParser()
     ap.add_argument("prop", nargs="?")
     ap.add_argument("--tier", default=os.environ.get("VERIF_TIER", "quick"))
